@@ -1,6 +1,7 @@
 package props
 
 import (
+	"math"
 	"fmt"
 	"strconv"
 	"strings"
@@ -56,7 +57,7 @@ func init() {
 						}
 					}},
 				{Name: "vertical-helper", ShardDepth: 2, Bounds: engine.Bounds{InputDev: -1},
-					Rule: "full product zin x zout (any coarsening, refining by <= 3... 10 levels) x f in VIdx(zin): VerticalZoom vs arithmetic shift; non-trivial = distinct (zin,f,zout) with negative f and zout < zin",
+					Rule: "full product zin x zout (any coarsening, refining by <= 3... 10 levels) x f in VIdx(zin) (zooming out: also +-(2^53+3), +-(2^60+1) and the ends of int64): VerticalZoom vs arithmetic shift; non-trivial = distinct (zin,f,zout) with negative f and zout < zin",
 					Body: func(c *engine.Ctx) {
 						zin := zs[c.In("zin", len(zs))]
 						zout := zs[c.In("zout", len(zs))]
@@ -64,6 +65,11 @@ func init() {
 							c.Skip("refining-more-than-10-levels")
 						}
 						fs := alpha.VIdx(zin)
+						if zout <= zin {
+							// zooming out is defined for any int64 index (vertical shifts are unbounded): values that a
+							// float64 cannot hold exactly and the ends of int64
+							fs = append(append([]int64{}, fs...), 1<<53+3, -(1<<53 + 3), 1<<60+1, -(1<<60 + 1), math.MaxInt64, math.MaxInt64-2, math.MinInt64+1, math.MinInt64)
+						}
 						f := fs[c.In("f", len(fs))]
 						got := integrate.VerticalZoom(zin, f, zout)
 						lo, hi := ref.ZoomAxis1(zin, f, zout)
